@@ -49,7 +49,9 @@ LScenario(s, crlf) ==
       cli == IF crlf \/ s = 1
              THEN [k \in 1..92 |-> [op |-> "cli", mode |-> (IF k <= 46 THEN "file" ELSE "stdin"), text |-> t, padline |-> 984 + ((k - 1) % 46) + 1, args |-> <<>>, same_out_as |-> 1]]
              ELSE <<>>
-  IN [prop |-> "C13", key |-> "L", steps |-> <<ref>> \o pads \o frag \o cli]
+      \* the INCLUDE statement reads the file with a reader of its own
+      incl == [k \in 1..46 |-> [op |-> "execfrag", ctx |-> 100 + k, reader |-> "include", text |-> t, padline |-> 984 + k, same_run_as |-> 1, nounp |-> TRUE]]
+  IN [prop |-> "C13", key |-> "L", steps |-> <<ref>> \o pads \o frag \o cli \o incl]
 \* CR LF against LF: same tokens
 CScenario(s) ==
   [prop |-> "C13", key |-> "C",
